@@ -248,6 +248,10 @@ func (s *sess) roots() []root {
 	}
 	for _, fn := range s.allFuncs() {
 		if fn.Parent() == nil {
+			// an unexported method that is registered as a handler / callback / goroutine body is analysed in that role only
+			if isClosureRoot[fn] && !isExported(an.NameOf(fn)) {
+				continue
+			}
 			out = append(out, root{Cat: "method", Key: an.NameOf(fn), Fn: fn})
 		} else if !isClosureRoot[fn] {
 			// a closure that is neither registered nor spawned: treat it as its own root so that nothing escapes the census
